@@ -1302,3 +1302,23 @@ def fit_skip(ctx, skip):
         _quiet(fake.seen["fun"], t, *fake.seen["args"])
     ctx.ensure("objective-sets-fitted-parameter-only",
                ctx.And(ctx.eq(getattr(norm, fitted), t), ctx.eq(getattr(norm, skip), lm0 if skip == "lmbda" else sh0)))
+
+
+@contract(P, "tools.remove_trend_norm_mean/repeatable-on-the-same-input", params={"check_shape": [True, False], "fn": ["remove", "apply"]},
+          functions=["normalizer/tools.py:remove_trend_norm_mean", "normalizer/tools.py:apply_mean_norm_trend"],
+          bounded="3 points, constant trend/mean (call history: the same input array used twice)")
+def pipeline_repeatable(ctx, check_shape, fn):
+    """the pipeline functions are functions of their arguments: calling them twice with the same
+    field array gives the same result (the inverse pair stays an inverse pair on the second use)"""
+    from gstools.normalizer import remove_trend_norm_mean, apply_mean_norm_trend
+    t, mu = ctx.real("trend", lo=-3, hi=3), ctx.real("mean", lo=-3, hi=3)
+    vals = [ctx.real("f%d" % i, lo=-2, hi=2) for i in range(3)]
+    pos = np.array([[0.0, 1.0, 2.0]])
+    f = arr(ctx, vals)
+    g = remove_trend_norm_mean if fn == "remove" else apply_mean_norm_trend
+    with np.errstate(all="ignore"):
+        r1 = _quiet(g, pos, f, mean=mu, trend=t, check_shape=check_shape)
+        r2 = _quiet(g, pos, f, mean=mu, trend=t, check_shape=check_shape)
+    ctx.ensure("second-call=first-call", ctx.eq(r2, r1))
+    exp = [v - t - mu for v in vals] if fn == "remove" else [v + t + mu for v in vals]
+    ctx.ensure("second-call=documented-value", ctx.eq(r2, arr(ctx, exp)))
